@@ -1,5 +1,6 @@
 import MicroHttp.Props.C04
 import MicroHttp.Props.Tables
+import MicroHttp.Props.C01
 #print axioms MicroHttp.C04.payload_iff
 #print axioms MicroHttp.C04.payload_error
 #print axioms MicroHttp.C04.payload_rejected_early
@@ -11,3 +12,5 @@ import MicroHttp.Props.Tables
 #print axioms MicroHttp.Tables.buffer_size
 #print axioms MicroHttp.Tables.max_payload_size
 #print axioms MicroHttp.Tables.crlf_len
+#print axioms MicroHttp.C01.tryRead_refines
+#print axioms MicroHttp.C01.sched_refines
